@@ -5,12 +5,33 @@ import "verif/engine/gosym"
 // ConfigureStubs installs the redirect table (callee -> harness stub of the
 // same signature) and the traced functions.
 func ConfigureStubs(in *gosym.Interp) {
+	for k, v := range RedirectTable() {
+		in.Redirect[k] = v
+	}
+	d := Module + "/cmd/seccomp-profiler/disasm"
+	in.Summarize[d+".isSyscallFunction"] = true
+	in.Summarize["(*"+d+".parser).isRawSyscall"] = true
+}
+
+// RedirectTable: callee (full name as go/types and go/ssa print it) -> harness
+// stub. The engine applies it to every call that is not made by harness code;
+// the native replay applies it as a typed source rewrite (rewrite.go).
+func RedirectTable() map[string]string {
+	in := &struct{ Redirect map[string]string }{map[string]string{}}
 	in.Redirect["syscall.Syscall"] = "vstubSyscall"
 	in.Redirect["syscall.Syscall6"] = "vstubSyscall6"
 	in.Redirect["syscall.RawSyscall"] = "vstubSyscall"
 	in.Redirect["syscall.RawSyscall6"] = "vstubSyscall6"
 	in.Redirect["runtime.LockOSThread"] = "vstubLockOSThread"
 	in.Redirect["runtime.UnlockOSThread"] = "vstubUnlockOSThread"
+	// ambient environment (stubs in the runtime file of every package)
+	for _, pk := range []string{"syscall", "os", "golang.org/x/sys/unix"} {
+		for _, f := range []string{"Getuid", "Geteuid", "Getgid", "Getegid", "Getpid", "Getppid", "Gettid", "Getenv", "LookupEnv"} {
+			in.Redirect[pk+"."+f] = "vstub" + f
+		}
+	}
+	in.Redirect["syscall.Getenv"] = "vstubLookupEnv"
+	in.Redirect["golang.org/x/sys/unix.Getenv"] = "vstubLookupEnv"
 	// cmd/sandbox
 	in.Redirect["flag.StringVar"] = "vstubStringVar"
 	in.Redirect["flag.BoolVar"] = "vstubBoolVar"
@@ -37,6 +58,8 @@ func ConfigureStubs(in *gosym.Interp) {
 	in.Redirect[pm+".writeGoTemplate"] = "vstubWriteGoTemplate"
 	in.Redirect["gopkg.in/yaml.v2.Marshal"] = "vstubYAMLMarshal"
 	in.Redirect[pm+".cachedDumpFile"] = "vstubCachedDumpFile"
+	in.Redirect["io.Copy"] = "vstubCopy"
+	in.Redirect["crypto/sha256.New"] = "vstubSha256New"
 	in.Redirect["os.Create"] = "vstubCreate"
 	in.Redirect["os.CreateTemp"] = "vstubCreateTemp"
 	in.Redirect["os.Rename"] = "vstubRename"
@@ -57,7 +80,7 @@ func ConfigureStubs(in *gosym.Interp) {
 	in.Redirect["(*bufio.Scanner).Scan"] = "vstubScan"
 	in.Redirect["(*bufio.Scanner).Text"] = "vstubText"
 	in.Redirect["(*bufio.Scanner).Err"] = "vstubScanErr"
+	in.Redirect["(*bufio.Scanner).Buffer"] = "vstubBuffer"
 	in.Redirect[d+".findSyscallNum"] = "vstubFindSyscallNum"
-	in.Summarize[d+".isSyscallFunction"] = true
-	in.Summarize["(*"+d+".parser).isRawSyscall"] = true
+	return in.Redirect
 }
